@@ -8,12 +8,14 @@ import (
 	"fmt"
 	"hash/fnv"
 	"net/http"
+	"os"
 	"runtime"
 	"runtime/debug"
 	"strconv"
 	"strings"
 	"sync"
 	"testing"
+	"time"
 
 	"golang.org/x/net/internal/verifrt"
 )
@@ -166,6 +168,33 @@ func (s *v14Session) evaluate() {
 	ctxOf := func(e *v14Exch) string {
 		return fmt.Sprintf("exchange %d of the session: %+v\nsession: %+v", e.Idx, e.desc(), *cf)
 	}
+	// Root causes that take a whole connection (or several exchanges) down are reported once,
+	// under one key; the exchanges they cost are counted, the others are still compared.
+	hasW := func(prefix string) bool {
+		for _, wv := range w.viols {
+			if strings.HasPrefix(wv.Key, prefix) {
+				return true
+			}
+		}
+		return false
+	}
+	root := ""
+	for _, st := range w.streams {
+		if st.rstBy == 2 && st.rstCode == 3 && st.beforeAck && srvAdv.initWin < 65535 && !hasW("wire-data-exceeds") {
+			root = "server-enforces-unacknowledged-initial-window"
+			s.viol(root, "the server reset stream %d with FLOW_CONTROL_ERROR although the client had sent only %d body bytes on it (credit %d), i.e. stayed within the default window of 65535 that applies until it has received and acknowledged the server's SETTINGS_INITIAL_WINDOW_SIZE=%d (RFC 9113 6.9.3: the receiver must be prepared for this); the request was written before the client's SETTINGS ACK\nsession: %+v\nlast frames:%s",
+				st.id, st.sent[0], st.wu[0], srvAdv.initWin, *cf, w.history())
+			break
+		}
+	}
+	if w.goAway[1] > 0 && w.goCode[1] == 9 && srvAdv.tableSize < 4096 && w.blocksBeforeAck > 0 && !hasW("wire-field-block-undecodable") && !hasW("wire-hpack") {
+		key := "server-decoder-applies-unacknowledged-table-size"
+		s.viol(key, "the server closed the connection with GOAWAY(COMPRESSION_ERROR) although every field block of the client decodes with the RFC 7541 reference; the server advertised SETTINGS_HEADER_TABLE_SIZE=%d and the client wrote %d field blocks before it acknowledged that SETTINGS frame, i.e. while the table size of 4096 was still in force (RFC 7541 4.2 / RFC 9113 6.5.3)\nsession: %+v\nlast frames:%s",
+			srvAdv.tableSize, w.blocksBeforeAck, *cf, w.history())
+		if root == "" {
+			root = key
+		}
+	}
 	for i := 0; i < s.started; i++ {
 		e := s.ex[i]
 		g := got[i]
@@ -183,6 +212,10 @@ func (s *v14Session) evaluate() {
 				r.Event("skipped_response_over_advertised_header_list_size", 1)
 				continue
 			}
+		}
+		if g.Err != nil && root != "" {
+			r.Event("exchanges_lost_to_"+root, 1)
+			continue
 		}
 		if g.Err != nil {
 			key := "exchange-failed:" + v14ErrClass(g.Err)
@@ -255,7 +288,11 @@ func (s *v14Session) evaluate() {
 				v14CmpTrailer(sn.Trailer, wr.Trailer, func(class, detail string) { v("request-trailer:"+class, "%s", detail) })
 			}
 			if sn.WriteErr != "" {
-				v("handler-write-error", "%s", sn.WriteErr)
+				if e.handlerBody {
+					v("handler-write-error", "%s", sn.WriteErr)
+				} else {
+					r.Event("handler_write_errors_on_bodyless_responses", 1)
+				}
 			}
 		}
 		// ---- response as seen by the client
@@ -349,7 +386,7 @@ func (s *v14Session) evaluate() {
 	for _, wv := range w.viols {
 		s.viol(wv.Key, "%s (×%d)\nsession: %+v", wv.Detail, wv.Count, *cf)
 	}
-	if w.goAway[1] > 0 && w.goCode[1] != 0 {
+	if w.goAway[1] > 0 && w.goCode[1] != 0 && root == "" {
 		s.viol(fmt.Sprintf("server-goaway-code-%d", w.goCode[1]), "the server sent GOAWAY with error code %d during a session of valid exchanges\nsession: %+v\nlast frames:%s", w.goCode[1], *cf, w.history())
 	}
 	if w.goAway[0] > 0 && w.goCode[0] != 0 {
@@ -497,6 +534,15 @@ func (g *v14Reg) set(p *v14Pipe, s *v14Session) {
 // v14RunCase runs one session and reports.
 func v14RunCase(r *verifrt.R, c *verifrt.Case, mode, flavor string) {
 	s := v14Build(r, c, mode, flavor)
+	if strings.Contains(os.Getenv("VERIF_DEBUG"), "timing") {
+		t0 := time.Now()
+		defer func() {
+			if d := time.Since(t0); d > 2*time.Second {
+				w := s.wire
+				fmt.Printf("V14-SLOW %s/%d %.1fs frames=%d/%d conf=%+v\n", c.Stream, c.Index, d.Seconds(), w.ev["frames_c2s"], w.ev["frames_s2c"], *s.cf)
+			}
+		}()
+	}
 	var inner, outer string
 	if s.realtime {
 		func() {
@@ -612,8 +658,19 @@ func TestVerif_C14(t *testing.T) {
 		testHookOnPanicMu.Unlock()
 	}()
 
+	only := ""
+	for _, kv := range strings.Split(os.Getenv("VERIF_DEBUG"), ",") {
+		if strings.HasPrefix(kv, "only=") {
+			only = strings.TrimPrefix(kv, "only=")
+		}
+	}
 	run := func(mode, flavor string) func(c *verifrt.Case) {
-		return func(c *verifrt.Case) { v14RunCase(r, c, mode, flavor) }
+		return func(c *verifrt.Case) {
+			if only != "" && only != c.Stream {
+				return
+			}
+			v14RunCase(r, c, mode, flavor)
+		}
 	}
 	// a small slice with the package's serve-goroutine assertion enabled
 	vsrvGoroutineTracking(true)
